@@ -170,7 +170,55 @@ func (c c01) Run(ctx *core.Ctx) error {
 	}
 	ctx.Ev.Bounds["depth_completed"] = completed
 	ctx.Ev.Bounds["max_depth"] = maxDepth
+	if flavor == "C06" {
+		c.lineages(ctx, cfgs)
+	}
 	return nil
+}
+
+// lineages: beyond the BFS depth, every table lineage of k tables (one operation+flush per table) is built directly
+// and compacted: cycle, second cycle, restart - each with the compaction clauses checked around every cycle.
+func (c c01) lineages(ctx *core.Ctx, cfgs []dbCfg) {
+	k := 5
+	ops := []dbOp{{Op: "putrot", K: 0, V: 0}, {Op: "putrot", K: 0, V: 1}, {Op: "delrot", K: 0}}
+	if ctx.Tier == "thorough" {
+		k = 6
+		ops = append(ops, dbOp{Op: "putrot", K: 1, V: 0})
+	}
+	var lins [][]dbOp
+	cur := []dbOp{}
+	var rec func()
+	rec = func() {
+		if len(cur) == k {
+			lins = append(lins, append([]dbOp{}, cur...))
+			return
+		}
+		for _, o := range ops {
+			cur = append(cur, o)
+			rec()
+			cur = cur[:len(cur)-1]
+		}
+	}
+	rec()
+	var cases []json.RawMessage
+	for _, l := range lins {
+		for ci := range cfgs {
+			cmp := dbOp{Op: "cmp"}
+			// L + Compact (checked), then from L+Compact: a second cycle, and a restart with the same configuration
+			cases = append(cases, core.J(c01Case{Flavor: "C06", Init: ci, Path: l, Ops: []dbOp{cmp}}))
+			cases = append(cases, core.J(c01Case{Flavor: "C06", Init: ci, Path: append(append([]dbOp{}, l...), cmp), Ops: []dbOp{cmp, {Op: "reopen", C: ci}}}))
+		}
+	}
+	ctx.Ev.Bounds["lineage_tables"] = k
+	ctx.Ev.Bounds["lineages"] = len(lins)
+	ctx.Ev.Notes = append(ctx.Ev.Notes, fmt.Sprintf("lineage enumeration: every sequence of %d operation+flush steps over %d operations (one table each) x %d configurations, followed by Compact, by Compact Compact and by Compact Reopen", k, len(ops), len(cfgs)))
+	rs := ctx.Pmap(cases)
+	ctx.Fold(rs, cases)
+	for i, r := range rs {
+		if r.Died {
+			ctx.Report(core.Violation{Desc: "process died or hung in a lineage session: " + r.DiedMsg, Case: cases[i]})
+		}
+	}
 }
 
 func (c c01) Case(w *core.WCtx, payload json.RawMessage) core.Result {
